@@ -20,7 +20,7 @@ IDENTS = ["foo", "bar", "Baz", "work", "home_2", "a1", "zz9", "tag", "ctx", "who
 KEYS = ["due", "kA", "kB", "ID", "RID", "p", "status", "foo", "file", "type"]
 STR_VALUES = ["foo", "Done", "v1", "x9", "M_Th", "P1", "a1"]
 INT_VALUES = ["0", "10", "42", "100", "007", "1015", "123456", "25"]
-DATE_VALUES = ["2024-01-01", "2024-03-13", "2025-12-31", "2031-03-14", "2000-02-29"]
+DATE_VALUES = ["2024-01-01", "2024-03-13", "2025-12-31", "2031-03-14", "2000-02-29", "7D", "0D", "2M", "1Y", "10D", "12M"]
 DESC_WORDS = ["foo", "bar", "Foo", "BAR", "note", "50", "a_b", "ox", "quick", "lazy", "Dog", "x9", "the", "zz", "o", "x", "due", "none"]
 DESC_SYMS = ["%", "_", "\\", "&", "=", "(", ")", "?", "*", "~", "#", "@", "+", "-", ".", "/", ":", ";", ",", "`", "{", "}", "<", ">", "^", "$"]
 KIND_CHARS = "-ox~<>"
